@@ -390,6 +390,22 @@ func c08Aggregates(c *fw.Ctx) {
 			data = append(data, ch...)
 		}
 		want, _ := ref.SplitAggregate(agg)
+		// ordinary messages after the aggregate, on the same chunk stream, in every header format
+		// the writer may legally use (the delta formats refer to the aggregate's own timestamp)
+		t2 := baseTs
+		nFollow := rng.Intn(4)
+		for k := 0; k < nFollow; k++ {
+			t2 += uint32(rng.Intn(100))
+			m := ref.RtmpMsg{Csid: 4, TypeID: uint8(8 + rng.Intn(2)), StreamID: 1, Ts: t2, Payload: c09Fill(1+rng.Intn(300), uint32(rep*100+k))}
+			if k > 0 && rng.Intn(3) == 0 {
+				m.Csid = 6
+			}
+			legal := w.LegalFormats(m)
+			for _, ch := range w.Encode(m, legal[rng.Intn(len(legal))]) {
+				data = append(data, ch...)
+			}
+			want = append(want, m)
+		}
 		c.Eval(1)
 		got, err := lalCompose(data, cs, rng.Intn(3), rng)
 		if err != io.EOF {
@@ -397,7 +413,7 @@ func c08Aggregates(c *fw.Ctx) {
 			continue
 		}
 		if d := msgsEq(got, want); d != "" {
-			c.Violate("reader/aggregate", fmt.Sprintf("aggregate (ts=%d, %d subs, first sub ts=%d): %s", baseTs, n, subBase, d), nil)
+			c.Violate("reader/aggregate", fmt.Sprintf("aggregate (ts=%d, %d subs, first sub ts=%d) followed by %d ordinary messages: %s", baseTs, n, subBase, nFollow, d), nil)
 		}
 		c.Cell("reader/aggregate/%s/n=%d", tsClass(baseTs), n)
 	}
